@@ -19,7 +19,7 @@ def jobs_diags(tier):
         inj(3, 1, 1, 1, 2, 0)
         inj(2, 2, 1, 2, 1, 1)
         inj(3, 1, 0, 2, 1, 0)
-        inj(2, 1, 0, 2, 2, 0, ab=1)
+        # (two diagnostics with two position ranges each do not finish within 15 min even on a one-byte file: not registered)
     for nl in (1, 4):
         for np in (0, 1, 2):
             out.append({"name": "ranges-l%d-p%d" % (nl, np), "func": "VerifHarness_Ranges", "params": {"nlines": nl, "npos": np}, "unwind": 60, "reach": ["end"]})
@@ -78,7 +78,8 @@ def jobs_reporter(tier):
     if tier != "quick":
         for flags in range(4):
             for minsev in (0, 1, 3):
-                rep("Console", 4, 1, 3, 2, 2, 5, flags=flags, minsev=minsev, symlink=flags & 1, ab=1)
+                rep("Console", 2, 1, 3, 5, 1, 5, flags=flags, minsev=minsev, symlink=flags & 1, ab=1)
+                rep("Console", 4, 1, 2, 2, 2, 2, flags=flags, minsev=minsev, symlink=flags & 1, ab=1)
         for func in ("JSON", "TeamCity", "Checkstyle"):
             for pm in (0, 3, 5):
                 rep(func, 4, 0, 3, 7, 2, pm)
@@ -108,14 +109,14 @@ PROP = {
     "level_text": "Bounded symbolic model checking of pint's real rendering and routing kernels for run-time panics: diags.InjectDiagnostics / lineCoverage / readRange / PositionRanges.Lines / LineRange.Expand, the console, JSON, checkstyle and TeamCity reporters, config.GetChecksForEntry + the error check, and the Problem values built by the configuration-driven checks, all over symbolic reports that satisfy the report invariant I on a file of <= 4 lines of symbolic bytes.",
     "level_note": "This is kernel totality, not a claim about arbitrary bytes: the quantifier of C02 is over file contents and the solver sees reports and nodes. File access is cut; encoders (encoding/json, encoding/xml, fmt.Fprint*) are models that accept anything; in package reporter diags.InjectDiagnostics is cut (it is executed in package diags). Part (a) (parser kernels on symbolic yaml.Node trees) is covered only for the position kernels named in notes/C02.md.",
     "runs": [
-        {"pkg": "./internal/diags", "harness": ["harness/C02/diags.go"], "intmode": True, "jobs": jobs_diags},
+        {"pkg": "./internal/diags", "harness": ["harness/C02/diags.go"], "intmode": True, "jobs": jobs_diags, "job_timeout_s": 900},
         {"pkg": "./internal/parser", "harness": ["harness/C02/parser.go"], "intmode": True, "jobs": jobs_parser},
-        {"pkg": "./internal/reporter", "harness": ["harness/C02/reporter.go"], "intmode": True, "jobs": jobs_reporter},
+        {"pkg": "./internal/reporter", "harness": ["harness/C02/reporter.go"], "intmode": True, "jobs": jobs_reporter, "job_timeout_s": 900},
         {"pkg": "./internal/config", "harness": ["harness/C02/routing.go"], "intmode": True, "jobs": jobs_routing},
         {"pkg": "./internal/checks", "harness": ["harness/C18/expand.go", "harness/C02/checks.go"], "intmode": True, "jobs": jobs_checks},
     ],
     "bounds": {"file": "<= 4 lines of 1..3 symbolic ASCII bytes, with or without a final newline", "reports": "<= 3", "diagnostics per report": "<= 2",
-               "position ranges per diagnostic": "<= 2 (package diags), 1 (package reporter)", "columns": "positions 1..linelen+2, diagnostic columns -1..linelen+3"},
+               "position ranges per diagnostic": "package diags: 2 ranges with 1 diagnostic, 1 range with 2 diagnostics (2x2 does not finish: not registered); package reporter: 1", "columns": "positions 1..linelen+2, diagnostic columns -1..linelen+3"},
     "assumptions": [
         "I1 every Diagnostic.Pos is non-empty", "I2 every PositionRange.Line is in [1, TotalLines] and 1 <= FirstColumn <= LastColumn",
         "I3 1 <= Problem.Lines.First <= Problem.Lines.Last <= TotalLines (the lower bound 1 was added to DESIGN's I: the console reporter indexes lines[First-1])",
